@@ -66,7 +66,7 @@ def c03(tier):
 
 
 def c05(tier):
-    family = fam(['failing', 'fail_diamond'])
+    family = fam(['failing', 'fail_diamond']) + [p for p in programs.parallel_family() if p['name'] == 'par_fail']
     v, cov, te, wall = syscheck.run_family(
         'C05', tier, family, ['FailPropagates', 'NoCleanOverFailed', 'NoDupRun', 'NoUnderBuild'], [],
         {'rc', 'ran', 'row.failed', 'row.gen', 'file'},
@@ -122,4 +122,19 @@ def c17(tier):
     return finish('C17', tier, v, cov, te, wall)
 
 
-CHECKS = {'C17': c17, 'C04': c04, 'C01': c01, 'C02': c02, 'C03': c03, 'C05': c05, 'C11': c11, 'C14': c14}
+def c07(tier):
+    family = programs.parallel_family()
+    v, cov, te, wall = syscheck.run_family(
+        'C07', tier, family, ['NoDupRun', 'Fresh', 'NoTmpLeft', 'FailPropagates'], ['NoTrample'],
+        {'rc', 'ran', 'file', 'row.gen', 'row.failed', 'row.csum', 'row.ovr', 'edge', 'tmp'},
+        bounds(tier, (3, 2), (3, 2)), sample_n=None if tier == 'thorough' else 30,
+        jitter=True, repeat=6 if tier == 'thorough' else 2, sched_independent=True,
+        required_actions=['AcquireA', 'ReleaseA', 'Pass2A'],
+        note='redo -j2/-j3 on diamonds, fans, shared checksummed and always targets, a failing sibling; TLC '
+             'enumerates every interleaving of process steps; the driver checks that all terminal outcomes of one '
+             'input agree (exit status, files, rows, edges); the real build is run with random script delays and '
+             'must agree with a specification behaviour')
+    return finish('C07', tier, v, cov, te, wall)
+
+
+CHECKS = {'C07': c07, 'C17': c17, 'C04': c04, 'C01': c01, 'C02': c02, 'C03': c03, 'C05': c05, 'C11': c11, 'C14': c14}
